@@ -29,7 +29,7 @@ func (f *Frame) instr(ins ssa.Instruction, st *state) {
 		for _, r := range x.Results {
 			vals = append(vals, f.val(r))
 		}
-		f.rets = append(f.rets, retInfo{reach: st.reach, mem: st.mem.clone(), vals: vals})
+		f.rets = append(f.rets, retInfo{reach: st.reach, mem: st.mem.clone(), vals: vals, pos: x.Pos(), blk: f.u.ctx.curBlk})
 	case *ssa.Panic:
 		u.oblige(f, st, "panic", f.ordLabel(ins, "panic"), x.Pos(), "false")
 		st.reach = "false"
